@@ -64,6 +64,7 @@ func hostileCmd(args []string) error {
 	alen := fs.Int("alen", 3, "enumerate every string up to this length over the reduced alphabet")
 	nrand := fs.Int("rand", 3000, "random strings over the alphabet (length 4..12) per struct")
 	maxNest := fs.Int("nest", 200000, "largest nesting depth / repetition for the scaled patterns")
+	deep := fs.Int("deep", 0, "one extra probe of every pattern at this depth on the first struct type (0: none)")
 	structs := fs.String("structs", "Vt.Opts,Vt.Inner,requestf.RequestPacket,requestf.ResponsePacket", "struct types decoded")
 	fs.Parse(args)
 	s := &sink{seen: map[string]struct{}{}, rng: rand.New(rand.NewSource(*seed)), cnt: map[string]int{}}
@@ -137,6 +138,28 @@ func hostileCmd(args []string) error {
 			}
 		}
 	}
+	// TUP attribute maps that announce far more entries than follow (with 0, 1 or 2 well-formed entries)
+	for _, cnt := range []int64{1<<31 - 1, 1 << 30, 1 << 26, 1 << 20, 70000, 3} {
+		for entriesN := 0; entriesN <= 2; entriesN++ {
+			b := append(mkHead(tMAP, 0), mkCount(cnt)...)
+			for i := 0; i < entriesN; i++ {
+				b = append(b, mkHead(6, 0)...) // string1 key
+				b = append(b, 1, byte('a'+i))
+				b = append(b, mkHead(tSL, 1)...)
+				b = append(append(b, mkHead(tBYTE, 0)...), mkCount(2)...)
+				b = append(b, 0x0c, 0x0c)
+			}
+			for _, tail := range [][]byte{nil, {0x0c}, {0x16, 0x00}} {
+				bb := append(append([]byte(nil), b...), tail...)
+				rs, died, _ := s.w.call(wReq{Entry: "tup", B: b64(bb)}, 20*time.Second)
+				if died != "" {
+					rs.Panic = died
+				}
+				bw.Write(bigRec{K: "entry", Cls: "announced-length", S: "tup", Desc: fmt.Sprint(bb), BLen: len(bb), Ok: rs.Ok, Panic: rs.Panic, Ms: rs.Ms})
+				nbig++
+			}
+		}
+	}
 	// (iv) plain random bytes
 	for i := 0; i < *nrand; i++ {
 		b := make([]byte, s.rng.Intn(64))
@@ -176,6 +199,21 @@ func hostileCmd(args []string) error {
 		{"n nested StructBegin at tag 0", func(n int) []byte { return rep([]byte{0x0a}, n, nil) }},
 		{"n zero-marker fields at tag 13", func(n int) []byte { return rep([]byte{0xdc}, n, nil) }},
 		{"n nested StructBegin at tag 14 (Opts.inn / unknown)", func(n int) []byte { return rep([]byte{0xea}, n, nil) }},
+	}
+	// one probe far beyond the scaled range on every struct type: a decoder whose recursion is bounded answers at once
+	if *deep > *maxNest {
+		for _, p := range pats {
+			b := p.mk(*deep)
+			for _, name := range names {
+				t0 := time.Now()
+				rs, died, _ := s.w.call(wReq{S: name, B: b64(b)}, 120*time.Second)
+				if died != "" {
+					rs.Panic = died
+				}
+				bw.Write(bigRec{K: "big", Cls: "hostile", S: name, Desc: fmt.Sprintf("%s, n=%d", p.desc, *deep), BLen: len(b), Ok: rs.Ok, Panic: rs.Panic, Alloc: rs.Alloc, Ms: time.Since(t0).Milliseconds()})
+				nbig++
+			}
+		}
 	}
 	for _, p := range pats {
 		for n := 1000; ; n *= 10 {
